@@ -17,6 +17,7 @@ var verifHarnesses = map[string]func(){
 	"VerifC13Idempotent":   VerifC13Idempotent,
 	"VerifC13Reject":       VerifC13Reject,
 	"VerifC13GoValues":     VerifC13GoValues,
+	"VerifC13Reload":       VerifC13Reload,
 	"VerifC13Sources":      VerifC13Sources,
 	"VerifC12Race":         VerifC12Race,
 	"VerifC12Updatable":    VerifC12Updatable,
